@@ -8,6 +8,7 @@ global size_of usize == 8;
 //@ include prelude/std_specs.rs
 //@ include units/dltcore/part.rs
 //@ include units/plugindriver/part.rs
+//@ include units/plugindriver/rewrite.rs
 
 fn main() {}
 } // verus!
